@@ -109,6 +109,13 @@ theorem kwDynamicRef_pick (scope : List NodeId) (s : NodeId) :
   · exact kwDynamicRef_absent env sub _ j scope s (by simp [pick, h])
   · simp [gateK, Spec.kwDynamicRef, pick, h]
 
+theorem kwDynamicRef_vocab_pick (d : Draft) (scope : List NodeId) (s : NodeId) :
+    Spec.kwDynamicRef env sub scope s (Spec.vocab d (pick sel n)) j
+      = gateK (sel .dynamicRef) (Spec.kwDynamicRef env sub scope s (Spec.vocab d n) j) := by
+  cases h : sel .dynamicRef
+  · exact kwDynamicRef_absent env sub _ j scope s (by cases d <;> simp [pick, h, Spec.vocab])
+  · cases d <;> simp [gateK, Spec.kwDynamicRef, pick, h, Spec.vocab]
+
 theorem kwAllOf_pick : Spec.kwAllOf sub (pick sel n) j = gateK (sel .allOf) (Spec.kwAllOf sub n j) := by
   cases h : sel .allOf
   · exact kwAllOf_absent sub _ j (by simp [pick, h])
@@ -319,8 +326,8 @@ def selList (sel : Group → Bool) : List Bool :=
 theorem kwList_pick (env : Spec.Env) (rec : Spec.Rec) (scope : List NodeId) (s : NodeId) (j : Json) (n : Node)
     (sel : Group → Bool) :
     kwList env rec scope s j (pick sel n) = maskK (selList sel) (kwList env rec scope s j n) := by
-  simp only [kwList, kwRef_pick, kwDynamicRef_pick, kwAllOf_pick, kwAnyOf_pick, kwOneOf_pick, kwNot_pick, kwIf_pick,
-    kwItems_pick, kwContains_pick, kwContains_vocab_pick, kwProps_pick, kwPropertyNames_pick, kwDependentSchemas_pick, maskK, selList,
+  simp only [kwList, kwRef_pick, kwDynamicRef_pick, kwDynamicRef_vocab_pick, kwAllOf_pick, kwAnyOf_pick, kwOneOf_pick, kwNot_pick,
+    kwIf_pick, kwItems_pick, kwContains_pick, kwContains_vocab_pick, kwProps_pick, kwPropertyNames_pick, kwDependentSchemas_pick, maskK, selList,
     List.zipWith_cons_cons, List.zipWith_nil_right]
 
 theorem pick_h7 (env : Spec.Env) (n : Node) (sel : Group → Bool) (h7 : (env.draft == .d7 && n.ref != "") = false) :
@@ -353,8 +360,8 @@ theorem specBody_move (env : Spec.Env) (rec : Spec.Rec) (scope scope' : List Nod
     (hr : n.ref = "") (hd : n.dynamicRef = "") (hrec : rec (scope ++ [s]) = rec (scope' ++ [s'])) :
     specBody env rec scope s j n = specBody env rec scope' s' j n := by
   unfold specBody kwList
-  rw [hrec, kwRef_absent env _ n j s hr, kwRef_absent env _ n j s' hr, kwDynamicRef_absent env _ n j _ s hd,
-    kwDynamicRef_absent env _ n j _ s' hd]
+  rw [hrec, kwRef_absent env _ n j s hr, kwRef_absent env _ n j s' hr, kwDynamicRef_vocab_absent env _ n j _ _ s hd,
+    kwDynamicRef_vocab_absent env _ n j _ _ s' hd]
 
 /-- the verdict of a conjunction: defined when both outcomes are, valid when both are -/
 def verdict2 (a b : Spec.Out) : Option Bool :=
